@@ -61,6 +61,43 @@ func (s transportSpec) class() string {
 	}
 }
 
+// refine: name the first field that came back different.
+func (s transportSpec) refine(got any) string {
+	g, ok := got.(headers.Transport)
+	if !ok {
+		return s.class()
+	}
+	return transportFieldDiff(s.T, g, s.class())
+}
+
+func transportFieldDiff(w, g headers.Transport, dflt string) string {
+	switch {
+	case w.Profile != g.Profile || w.Protocol != g.Protocol:
+		return "profile"
+	case !equalValues(w.Delivery, g.Delivery):
+		return "delivery"
+	case !equalValues(w.Source2, g.Source2):
+		return "source"
+	case !equalValues(w.Destination2, g.Destination2):
+		return "destination"
+	case !equalValues(w.InterleavedIDs, g.InterleavedIDs):
+		return "interleaved"
+	case !equalValues(w.Ports, g.Ports):
+		return "port"
+	case !equalValues(w.TTL, g.TTL):
+		return "ttl"
+	case !equalValues(w.ClientPorts, g.ClientPorts):
+		return "client_port"
+	case !equalValues(w.ServerPorts, g.ServerPorts):
+		return "server_port"
+	case !equalValues(w.SSRC, g.SSRC):
+		return "ssrc"
+	case !equalValues(w.Mode, g.Mode):
+		return "mode"
+	}
+	return dflt
+}
+
 type transportsSpec struct {
 	L []headers.Transport `json:"transports"`
 }
@@ -283,20 +320,22 @@ func (s mikeySpec) message() mikey.Message {
 }
 
 func (s mikeySpec) build() any { return s.message() }
+// class: header-only | payload-<kind> (a single payload) | payload-sequence, "-spi" when a key carries an SPI/MKI.
 func (s mikeySpec) class() string {
-	kinds := map[string]bool{}
 	spi := false
 	for _, p := range s.PL {
-		kinds[p.Kind] = true
 		for _, sub := range p.Subs {
 			if sub.KV == 1 {
 				spi = true
 			}
 		}
 	}
-	c := "payloads-" + strings.Join(sortedKeysOf(kinds), "+")
-	if len(kinds) == 0 {
+	c := "payload-sequence"
+	switch len(s.PL) {
+	case 0:
 		c = "header-only"
+	case 1:
+		c = "payload-" + s.PL[0].Kind
 	}
 	if spi {
 		c += "-spi"
